@@ -364,6 +364,58 @@ fn c08(tier: Tier) -> Rep {
 }
 
 // ------------------------------------------------------------------------------------------------
+// C12, permission part: `Eq` / `Ord` on a float newtype is only granted together with `finite`
+
+fn c12(tier: Tier) -> Rep {
+    let mut rep = Rep::new();
+    let eq_bit = ALL_TRAITS.iter().position(|t| *t == Tr::Eq).unwrap();
+    let ord_bit = ALL_TRAITS.iter().position(|t| *t == Tr::Ord).unwrap();
+    let k = if tier == Tier::Quick { 4 } else { 6 };
+    let masks: Vec<u32> = masks_upto(k).into_iter().filter(|m| m & (1 << eq_bit) != 0 || m & (1 << ord_bit) != 0).collect();
+    // every way of writing a float declaration WITHOUT `finite` (no validation, bounds, predicate, custom
+    // validation; f32 and f64; with a NaN-removing custom sanitizer) x every derive set containing Eq or Ord
+    let guards: [&str; 7] = ["", "validate(greater = 1.0, less = 9.0),", "validate(greater_or_equal = 0.0),", "validate(predicate = is_ok, less = 9.0),", "validate(predicate = |v| v.is_finite()),", "validate(with = check, error = MyErr),", "sanitize(with = nan_to_zero), validate(less_or_equal = 1.0),"];
+    for item in ["pub struct X(f64);", "pub struct X(f32);"] {
+        for ga in guards {
+            for with_default in [false, true] {
+                let parts: Vec<Rep> = masks
+                    .par_chunks(128)
+                    .map(|chunk| {
+                        let pieces = Pieces { guard: TokenStream::from_str(ga).unwrap(), default: TokenStream::from_str(default_attr(Family::Float)).unwrap(), traits: ALL_TRAITS.iter().map(|t| TokenStream::from_str(t.name()).unwrap()).collect(), item: TokenStream::from_str(item).unwrap() };
+                        let ctl_pieces = Pieces { guard: TokenStream::from_str("validate(finite, less = 9.0),").unwrap(), default: TokenStream::from_str(default_attr(Family::Float)).unwrap(), traits: ALL_TRAITS.iter().map(|t| TokenStream::from_str(t.name()).unwrap()).collect(), item: TokenStream::from_str(item).unwrap() };
+                        let mut r = Rep::new();
+                        for &mask in chunk {
+                            let attrs = attr_for(&pieces, mask, with_default);
+                            let res = expand_ts(Shim::All, attrs.clone(), pieces.item.clone());
+                            r.evaluations += 1;
+                            r.transitions += 1;
+                            // non-vacuity: the same derive set IS granted once `finite` is declared
+                            let ctl = expand_ts(Shim::All, attr_for(&ctl_pieces, mask, with_default), pieces.item.clone());
+                            if ctl.is_ok() {
+                                r.nontrivial += 1;
+                                r.h("derive-set-granted-with-finite", 1);
+                            }
+                            match res {
+                                Ok(_) => r.violate("C12", format!("#[nutype({attrs})] {item}"), format!("float without finite: {ga}"), "eq-or-ord-granted-without-finite", "the macro refuses Eq / Ord on a float newtype that does not declare `finite` (NaN would be obtainable)".into(), "expansion succeeded".into()),
+                                Err(m) if m.starts_with("MACRO PANIC") => r.violate("C12", format!("#[nutype({attrs})] {item}"), format!("float without finite: {ga}"), "macro-panics", "a refusal".into(), m),
+                                Err(_) => r.h("refused", 1),
+                            }
+                        }
+                        r
+                    })
+                    .collect();
+                for p in parts {
+                    rep.merge(p);
+                }
+                rep.states += 1;
+            }
+        }
+    }
+    rep.bounds.insert("derive_subsets".into(), json!(format!("all subsets of the 22 trait names of size <= {k} that contain Eq or Ord ({} sets) x 7 finite-less guard spellings x f32/f64 x default present/absent", masks.len())));
+    rep
+}
+
+// ------------------------------------------------------------------------------------------------
 // C05 structural invariant
 
 mod structural;
@@ -388,8 +440,12 @@ fn decl_space(tier: Tier) -> Vec<(String, String, String, bool, Vis)> {
                 let nu = k % 2 == 0;
                 let vis = [Vis::Pub, Vis::Private, Vis::PubCrate, Vis::PubSuper][k % 4];
                 let item = item.replacen("pub ", vis.src(), 1);
-                let attr = format!("{ga} {} derive({}){}", default_attr(fam), names.join(", "), if nu { ", new_unchecked" } else { "" });
-                out.push((attr, item, "X".into(), nu, vis));
+                // with and without a `default = ..` attribute (a derive the macro would hand through to
+                // `#[derive]` untouched is only visible when it is NOT refused for another reason)
+                for da in [default_attr(fam), ""] {
+                    let attr = format!("{ga} {da} derive({}){}", names.join(", "), if nu { ", new_unchecked" } else { "" });
+                    out.push((attr, item.clone(), "X".into(), nu, vis));
+                }
             }
         }
     }
@@ -562,12 +618,13 @@ fn main() {
                 .collect();
             println!("{}", serde_json::to_string(&out).unwrap());
         }
-        "c08" | "c05" | "c15" => {
+        "c08" | "c05" | "c15" | "c12" => {
             let tier = Tier::parse(&get("--tier", "quick"));
             let t0 = std::time::Instant::now();
             let rep = match cmd {
                 "c08" => c08(tier),
                 "c05" => c05(tier),
+                "c12" => c12(tier),
                 _ => c15(tier),
             };
             let js = rep.to_json(&cmd.to_uppercase(), tier);
